@@ -8,7 +8,7 @@ META = {
     "technique": "Coq proof (per-line equivalence + induction over the line list, event-line parsers abstract) "
                  "+ model/impl differential on generated event files + direct reader-vs-reader oracle",
     "design_ref": "DESIGN.md §7 C46",
-    "level_text": "proof",
+    "level_text": "Coq theorem: the streaming reader's events equal the preload reader's for every file and every pair of event-line parsers (outside one known class), about an executable model tied to event_file.rs by a differential run on every check",
     "level_note": "Proved for the model Text/EventFile.v: for every file text whose read_line pieces are all within MAX_LINE_LENGTH, and for "
                   "every pair of event-line parsers, the streaming reader yields exactly the preload reader's events (timing dropped) or both "
                   "reject/panic. Modelled, tied by the differential run: line splitting, trimming, comment/BATCH/@ classification, timing-prefix "
